@@ -5,7 +5,7 @@ from .. import common, gen, trees, parsing
 
 LEVEL = "proof"
 # the re-lexing theory and the print-and-reparse theorem the C11 / C13 / C18 theorems rest on are audited here
-EXTRA_LEAN_MODULES = ["Luqum.Props.LX", "Luqum.Props.Reparse"]
+EXTRA_LEAN_MODULES = ["Luqum.Props.LX", "Luqum.Props.Reparse", "Luqum.Props.GenGlue"]
 RULE = ("parsed queries (all constructs, random layouts incl. glued tokens) x {default copy, resolver x 4 targets x "
         "add_head, open-range conversion with and without merging, auto_head_tail}: the result is printed, parsed "
         "again, and both trees are compared by truth table over their leaves (all assignments up to 8 distinct "
@@ -198,10 +198,8 @@ def repair(node, kinds):
                 text = c.__str__(head_tail=True)
                 if not ends_with_separator(text):
                     c.tail = c.tail + " "
-            for c in node.children[1:]:
-                text = c.__str__(head_tail=True)
-                if not text or not text[0].isspace():
-                    c.head = " " + c.head
+            # KF7 is the missing blank BEFORE the operator word only: the resolver always puts `add_head` (a blank
+            # here) after it, so a glue after the operator is not explained by it (seeded C11-E: `foo AND bar ANDfoo`)
         if "KF12" in kinds and isinstance(node, T.AndOperation) and node.children:
             last = node.children[-1]
             text = last.__str__(head_tail=True)
@@ -250,6 +248,16 @@ def run(ctx):
             # a boolean operation prints as juxtaposition: the re-parsed implicit operations are read as such
             readings = ("bool",) if name.startswith("resolve:bool") else (True, False)
             r, back = parsing.impl_parse(printed)
+            if back is not None and (ctx.escalate or rng.random() < 0.15):
+                # "parsing it again": the tree the parser hands out is the caller's to edit; a later parse of the same
+                # text must not see such edits (seeded C11-F: parse results memoised by text)
+                from . import c04
+                c04.scribble(back)
+                r_again, _ = parsing.impl_parse(printed)
+                if r_again != r:
+                    ctx.fail("parsing the printed form a second time, after the first result was edited in place by "
+                             "the caller, gives another tree", dict(info, first=r, second=r_again))
+                back = common.load_tree(r["ok"])
             why = None
             if back is None:
                 why = "the printed form is rejected by the parser (%s)" % (r["err"],)
